@@ -32,6 +32,10 @@ func TestCheck(t *testing.T) {
 		{Name: "wal-nobackup", Cfg: hist.Config{PageSize: 512, Start: 3, WAL: true, R2Starts: "absent", Alphabet: alpha, Prelude: []string{"tx:a:t1", "tx:a:g1"}}, Depth: 4, Budget: 70 * time.Second},
 	}
 	jobs = append(jobs, hist.Job{Name: "journal-lagging-replica-trimmed-log", Cfg: hist.Config{PageSize: 512, Start: 3, R2Starts: "absent", Alphabet: alpha, Prelude: []string{"part:R1", "tx:a:t1", "tx:a:g1", "age:P:a"}}, Depth: 3, Budget: 60 * time.Second})
+	// A replica that holds a multi-transaction snapshot file (it fell behind a trimmed log) followed by one later file, with a backup
+	// client configured: the high-water mark can then lie inside the snapshot file's TXID range.
+	jobs = append(jobs, hist.Job{Name: "journal-backup-replica-with-snapshot-file", Cfg: hist.Config{PageSize: 512, Start: 3, Backup: true, R2Starts: "absent", Alphabet: []string{"age", "hwm", "sweep", "tx:t1"},
+		Prelude: []string{"part:R1", "tx:a:t1", "tx:a:g1", "hwm:P:p", "retain", "heal:R1", "tx:a:t1"}}, Depth: 3, Budget: 60 * time.Second})
 	if run.Thorough() {
 		jobs[0].Depth, jobs[0].Budget = 5, 20*time.Minute
 		jobs[1].Depth, jobs[1].Budget = 5, 20*time.Minute
